@@ -581,10 +581,101 @@ fn run_huge(size: u64) -> Val {
     Val::L(out)
 }
 
+/// `(98 mode)`: MANY bytes written through ONE handle of the real appender, the file kept sparse by punching out
+/// what was written after every consultation (the length stays).  mode 0: 260 records of 16 MiB, limit 4 GiB +
+/// 24 MiB (the byte count of the handle passes 2^32); mode 1: 59 pre-existing bytes, then records of 100 bytes,
+/// 2 GiB + 1 MiB (more than one write(2) call transfers on Linux) and 100 bytes, limit 2 GiB.
+/// Result: ( (shown on_disk fired) per consultation ... #errors #panics ), or () where the file system refuses.
+fn run_written(mode: u128) -> Val {
+    #[derive(Debug)]
+    struct Probe {
+        inner: SizeTrigger,
+        log: Arc<Mutex<Vec<Val>>>,
+    }
+    impl Trigger for Probe {
+        fn trigger(&self, file: &log4rs::append::rolling_file::LogFile) -> anyhow::Result<bool> {
+            use std::os::unix::io::AsRawFd;
+            let disk = std::fs::metadata(file.path()).map(|m| m.len()).unwrap_or(0);
+            let fired = self.inner.trigger(file)?;
+            self.log.lock().unwrap().push(Val::L(vec![
+                Val::N(file.len_estimate() as u128),
+                Val::N(disk as u128),
+                Val::bool(fired),
+            ]));
+            if let Ok(f) = std::fs::OpenOptions::new().write(true).open(file.path()) {
+                unsafe {
+                    libc::fallocate(f.as_raw_fd(), libc::FALLOC_FL_PUNCH_HOLE | libc::FALLOC_FL_KEEP_SIZE, 0, disk.max(1) as libc::off_t);
+                }
+            }
+            Ok(fired)
+        }
+        fn is_pre_process(&self) -> bool {
+            false
+        }
+    }
+    #[derive(Debug)]
+    struct Zeros;
+    impl Encode for Zeros {
+        fn encode(&self, w: &mut dyn EncWrite, record: &log::Record) -> anyhow::Result<()> {
+            let n: usize = record.args().to_string().parse()?;
+            w.write_all(&vec![0u8; n])?;
+            Ok(())
+        }
+    }
+    const MIB: u64 = 1 << 20;
+    let (limit, pre, sizes): (u64, usize, Vec<usize>) = if mode == 0 {
+        (4096 * MIB + 24 * MIB, 0, vec![16 * MIB as usize; 260])
+    } else {
+        (2048 * MIB, 59, vec![100, (2048 * MIB + MIB) as usize, 100])
+    };
+    let tmp = tempfile::tempdir().unwrap();
+    let path = tmp.path().join("cur.log");
+    std::fs::write(&path, vec![b'p'; pre]).unwrap();
+    {
+        // a file system without hole punching would really hold the gigabytes: not run there
+        use std::os::unix::io::AsRawFd;
+        let f = std::fs::OpenOptions::new().write(true).open(&path).unwrap();
+        let rc = unsafe { libc::fallocate(f.as_raw_fd(), libc::FALLOC_FL_PUNCH_HOLE | libc::FALLOC_FL_KEEP_SIZE, 0, 1) };
+        if rc != 0 {
+            return Val::L(vec![]);
+        }
+    }
+    let log = Arc::new(Mutex::new(Vec::new()));
+    let policy = CompoundPolicy::new(
+        Box::new(Probe { inner: SizeTrigger::new(limit), log: log.clone() }),
+        Box::new(DeleteRoller::new()),
+    );
+    let app = match RollingFileAppender::builder().append(true).encoder(Box::new(Zeros)).build(&path, Box::new(policy)) {
+        Ok(a) => a,
+        Err(_) => return Val::L(vec![]),
+    };
+    let (mut err, mut panics) = (0u128, 0u128);
+    for n in sizes {
+        let r = std::panic::catch_unwind(std::panic::AssertUnwindSafe(|| {
+            app.append(&log::Record::builder().level(log::Level::Info).args(format_args!("{}", n)).build())
+        }));
+        match r {
+            Ok(Ok(())) => {}
+            Ok(Err(_)) => err += 1,
+            Err(_) => {
+                panics += 1;
+                break; // the appender's lock is poisoned from here on
+            }
+        }
+    }
+    let mut out = std::mem::take(&mut *log.lock().unwrap());
+    out.push(Val::N(err));
+    out.push(Val::N(panics));
+    Val::L(out)
+}
+
 pub fn run(case: &Val) -> Val {
     let c = case.l();
     if let Val::N(99) = c[0] {
         return run_huge(c[1].n() as u64);
+    }
+    if let Val::N(98) = c[0] {
+        return run_written(c[1].n());
     }
     let _clock_guard = ClockGuard;
     if c[0].l()[0].n() == 3 {
